@@ -2120,7 +2120,9 @@ double BW_MidiSequencer::Tick(double s, double granularity)
     {
         if(!processEvents())
             break;
-        if(m_currentPosition.wait <= 0.0)
+        // Count every round that does not get past the granularity (a counted loop shorter
+        // than half of it restores a small positive wait on every jump and would spin forever)
+        if(m_currentPosition.wait <= granularity * 0.5)
             antiFreezeCounter--;
     }
 
